@@ -230,7 +230,11 @@ NoDataEntailed(P, q, t, L, soa) ==
     \/ \E r \in P : /\ ProvesAbsent(r, q, L, soa)               \* ... at the matching wildcard
                     /\ \E c \in CesFrom(r, q, L, soa) : WildcardLacksType(P, c, t, L, soa)
 
-\* no closer match than *.ce exists: q is absent and its closest encloser is ce
+\* no closer match than *.ce exists: q is absent and its closest encloser is ce.
+\* ce is the expansion source of the ANSWERED RRset (the one of the queried type): the Labels field of
+\* its RRSIG.  Other RRsets in the answer section that were expanded for q from other wildcards
+\* ("riders"; an attacker can add authentic ones) say nothing about where the answered RRset comes
+\* from: they must not change the verdict on this claim.
 WildAnswerEntailed(P, q, ce, L, soa) ==
     /\ ProperSubdomain(q, ce)
     /\ \E r \in P :
